@@ -51,3 +51,17 @@ Definition parse_ip6 (t : text) : list N :=
   | rest => let b := drop_empty rest in
             map hex_value a ++ repeat 0 (8 - List.length a - List.length b) ++ map hex_value b
   end.
+
+(* netip's text of a 16-byte address: "::ffff:a.b.c.d" for the IPv4-mapped ones (the only texts with a
+   dot), RFC 5952 text otherwise *)
+Definition parse_ip6_text (t : text) : list N :=
+  if existsb (N.eqb DOT) t then
+    match t with
+    | 58 :: 58 :: 102 :: 102 :: 102 :: 102 :: 58 :: rest =>
+        match parse_ip4 rest with
+        | [a; b; c; d] => [0; 0; 0; 0; 0; 65535; a * 256 + b; c * 256 + d]
+        | _ => []
+        end
+    | _ => []
+    end
+  else parse_ip6 t.
